@@ -85,7 +85,7 @@ def spec_check(ctx, reqs, impl):
 SPEC = {
     "tables": ["FromString"],
     "props_module": PROPS_MODULE,
-    "required": ["dispatch_table_eq", "patterns_as_modelled", "tables_ok", "from_string_total", "from_string_never_panics",
+    "required": ["dispatch_table_eq", "dispatch_keys_distinct", "patterns_as_modelled", "tables_ok", "from_string_total", "from_string_never_panics",
                  "from_string_render_partial", "from_string_render_ast_partial", "from_string_acts_as_product",
                  "from_string_errors_parse_first", "from_string_error_no_name", "from_string_error_no_qubits",
                  "from_string_error_trailing_text", "from_string_error_invalid_index", "from_string_error_unclosed_list",
